@@ -26,7 +26,8 @@
         s (to_bin e d) at every fuel above shape + document size, in particular (C10_spec_of_agree) at the
         fuel of the binary entry points: nested objects / arrays / duplicate keys / Option / unknown fields /
         Once | Last | Collect struct fields / maps / tuples / enums included.
-     3. C10_text_bin_agree_partial: hence the text tape path on flatten (to_text d), the text stream path
+     3. C10_shared_fits (a shared target fits the text rendering) and C10_text_bin_agree_partial: hence the
+        text tape path on flatten (to_text d), the text stream path
         on tokens (to_text d), the binary tape path, the on-demand path and the stream reader (any capacity
         that fits, any fault-free schedule) on enc_doc (to_bin e d) all return the same value.
      4. colours: C10_link_rgb_typed_agree (a colour captured as (String, Vec<uN>): text tape path = the three
@@ -36,8 +37,6 @@
      * rgb colours are part of the logical documents but [shared] only where they are ignored (unknown
        field): TextDeSpec says UNFIT on headers, so theorem 3 excludes them (norgb_fields); item 4 is for
        the one-field document `color = rgb {..}`, not for colours at arbitrary positions of a document;
-     * [fits] of the text specification is a hypothesis of theorem 3 (shared implies it, not proved:
-       it needs that Date::parse never returns an error CLASS, only None);
      * keys are strings (no I32 keys), the operator is `=`, no Property<T> (text only), no token-attribute
        structs (the text side refuses numeric keys there), no `any` / String / date target on an integer
        (text hands out the numeral, binary the number: by design), DateHour dates;
@@ -47,7 +46,7 @@
 From JV Require Import Bytes Tables Utf8 Scalar Date TextTok BinPrim BufWin BinLexer BinReader SerdeShape
   TextDeCommon BinDeCommon TextDeSpec TextDeTape TextDeStream BinDeOndemand BinDeReader BinDeTape LogicDoc.
 From JV Require TextDoc BinDoc.
-From JV.proofs Require Import C10LinkProofs C10SpecProofs C10ComposeProofs C10RgbProofs.
+From JV.proofs Require Import C10LinkProofs C10SpecProofs C10FitsProofs C10ComposeProofs C10RgbProofs.
 Open Scope N_scope.
 
 (* text_visit decode pf cfg sh raw  = tvisit_prim F sh (scalar_prim decode pf true (thint_of sh) raw)
@@ -174,19 +173,26 @@ Proof.
 Qed.
 
 (* ------------------------------------------------------------------ 3. the five paths *)
+(* a shared target fits the text rendering: the specification never says "unfit" (so the hypothesis [fits] of
+   the C02 walk theorems is discharged; it needs that the date parsers never return an error class) *)
+Theorem C10_shared_fits : forall decode pf cfg sh d,
+  shared decode pf cfg sh d -> TextDeSpec.fits decode pf (c_fops cfg) sh (to_text d).
+Proof. exact shared_fits. Qed.
+Print Assumptions C10_shared_fits.
+
 Theorem C10_text_bin_agree_partial : forall decode pf cfg sh d e cap sched,
   wf_ldoc d = true -> norgb_fields d = true ->
   shared decode pf cfg sh d -> enc_ok decode cfg e d ->
-  TextDeSpec.fits decode pf (c_fops cfg) sh (to_text d) ->
   no_fail sched = true -> BinLexer.fits cap (BinDoc.enc_doc (fst (to_bin e d)) (snd (to_bin e d))) = true ->
   let v := TextDeSpec.spec_value decode pf (c_fops cfg) sh (to_text d) in
   let b := BinDoc.enc_doc (fst (to_bin e d)) (snd (to_bin e d)) in
+  v <> Err EC_UNFIT /\
   TextDeTape.deser_tape decode pf (c_fops cfg) sh (TextDoc.flatten (to_text d)) = v /\
   TextDeStream.deser_stream decode pf (c_fops cfg) sh (tokens (to_text d)) = v /\
   BinDeTape.deser_tape cfg sh b = v /\
   BinDeOndemand.deser_ondemand cfg sh b = v /\
   BinDeReader.deser_reader cfg cap sched sh b = v.
-Proof. exact text_bin_agree. Qed.
+Proof. exact text_bin_agree_shared. Qed.
 Print Assumptions C10_text_bin_agree_partial.
 
 (* ... and from the text BYTES: whatever the layout of the text rendering (white space, comments, `=` before
@@ -196,7 +202,6 @@ Print Assumptions C10_text_bin_agree_partial.
 Theorem C10_text_bytes_bin_agree_partial : forall decode pf cfg sh d e l cap sched,
   wf_ldoc d = true -> norgb_fields d = true ->
   shared decode pf cfg sh d -> enc_ok decode cfg e d ->
-  TextDeSpec.fits decode pf (c_fops cfg) sh (to_text d) ->
   TextDoc.wf_doc (to_text d) -> TextDoc.wf_layout (to_text d) l ->
   no_fail sched = true -> BinLexer.fits cap (BinDoc.enc_doc (fst (to_bin e d)) (snd (to_bin e d))) = true ->
   let b := BinDoc.enc_doc (fst (to_bin e d)) (snd (to_bin e d)) in
@@ -204,7 +209,7 @@ Theorem C10_text_bytes_bin_agree_partial : forall decode pf cfg sh d e l cap sch
     TextDeTape.deser_tape decode pf (c_fops cfg) sh t = BinDeTape.deser_tape cfg sh b /\
     TextDeTape.deser_tape decode pf (c_fops cfg) sh t = BinDeOndemand.deser_ondemand cfg sh b /\
     TextDeTape.deser_tape decode pf (c_fops cfg) sh t = BinDeReader.deser_reader cfg cap sched sh b.
-Proof. exact text_bytes_bin_agree. Qed.
+Proof. exact text_bytes_bin_agree_shared. Qed.
 Print Assumptions C10_text_bytes_bin_agree_partial.
 
 (* ------------------------------------------------------------------ 4. colours
